@@ -824,7 +824,7 @@ func (x *Exec) specInline(ce *CEnv, f *ssa.Function, args []*Val) *Val {
 	if r, ok := x.modelCall(bc, nil, name, f, args); ok {
 		return r
 	}
-	if fc := x.prog.Contracts.Funcs[name]; fc != nil && !fc.Inline && fc.Pure {
+	if fc := x.prog.Contracts.Funcs[name]; fc != nil && !fc.Inline && fc.Pure && !(x.rootC != nil && x.rootC.InlineCallees[name]) {
 		// pure function with contract inside a spec: uninterpreted application + ensures
 		return x.pureFuncApp(ce, f, fc, args)
 	}
